@@ -65,7 +65,11 @@ def snap_case(rng, tid, d):
     from eudoxia.tools import snap_command
     tps = rng.choice(TPS) if rng.random() < 0.85 else rng.randint(1, 100000)
     inp, out, out2 = f"{d}/in{tid}.csv", f"{d}/snap{tid}.csv", f"{d}/snap2_{tid}.csv"
-    write_input(inp, rng, tps, rng.randint(1, 25))
+    empty = rng.random() < 0.05          # a header-only trace (a valid idle workload) onto an output file left over from an earlier call
+    write_input(inp, rng, tps, 0 if empty else rng.randint(1, 25))
+    if empty:
+        write_input(out, rng, tps, 3)
+        write_input(out2, rng, tps, 2)
     _quiet(lambda: snap_command(inp, out, tps, force=True))
     _quiet(lambda: snap_command(out, out2, tps, force=True))
     ri, ro, ro2 = read_rows(inp), read_rows(out), read_rows(out2)
@@ -84,7 +88,11 @@ def jitter_case(rng, tid, d):
     delta = rng.choice([F(0), F(1, tps), F(1, 2), F(3), F(1, 1000), F(10)])
     seed = rng.choice([None, 0, 7, rng.randrange(10**6)])
     inp, out, out2 = f"{d}/jin{tid}.csv", f"{d}/jit{tid}.csv", f"{d}/jit2_{tid}.csv"
-    write_input(inp, rng, tps, rng.randint(1, 25))
+    empty = rng.random() < 0.05          # a header-only trace onto output files left over from an earlier call (as `tools sensitivity` does)
+    write_input(inp, rng, tps, 0 if empty else rng.randint(1, 25))
+    if empty:
+        write_input(out, rng, tps, 3)
+        write_input(out2, rng, tps, 3)
     _quiet(lambda: jitter_command(inp, out, float(delta), seed=seed, force=True))
     _quiet(lambda: jitter_command(inp, out2, float(delta), seed=seed, force=True))
     ri, ro = read_rows(inp), read_rows(out)
@@ -177,6 +185,13 @@ def sample_case(rng, tid, d):
     so, se = sys.stdout, sys.stderr
     digests, expected = [], []
     try:
+        if rng.random() < 0.4:
+            # the output directory is not fresh: it holds the samples of an earlier call with another start seed
+            for i in range(n):
+                try:
+                    tools._sensitivity_task(tools.SensitivityTask(workload_index=i, params_file=pfile, output_dir=outdir, seed=start + 1000 + i, jitter_seed=None))
+                finally:
+                    sys.stdout, sys.stderr = so, se
         for i in range(n):
             task = tools.SensitivityTask(workload_index=i, params_file=pfile, output_dir=outdir, seed=start + i, jitter_seed=None)
             try:
